@@ -325,3 +325,10 @@ Section GenShape.
         destruct G as (r & Hr & ->). exists (bm, Built info es), info, es. auto.
   Qed.
 End GenShape.
+
+(* C20: --select X is the app with X written in front of its selects *)
+Lemma select_in_front bin bn X :
+  build_binary bin bn X = build_binary (with_selects bin (X ++ m_selects bin)) bn [].
+Proof.
+  unfold build_binary, with_selects. cbn. rewrite <- app_assoc. reflexivity.
+Qed.
